@@ -328,6 +328,43 @@ def run_surrogates(ctx):
             check_unevaluable(ctx, doc, toks, str(e), tag)
 
 
+def run_huge_values(ctx):
+    """Documents (Python objects) whose numbers are too long to print: integers beyond the interpreter's int/str
+    conversion limit. Tokens applied to them are unevaluable like tokens applied to any number; the values themselves
+    resolve. A replay file cannot hold them, so the class is replayed as a whole."""
+    tag = {"huge_values": True}
+    big, neg = 10 ** 5000, -(10 ** 4400)
+    doc = {"big": big, "list": [1, neg, {"deep": big}], "ok": {"n": 7}}
+    case_doc = {"big": "<10**5000>", "list": [1, "<-(10**4400)>", {"deep": "<10**5000>"}], "ok": {"n": 7}}
+    import jsonpath
+    from jsonpath import JSONPointer
+
+    for toks, val in ((["big"], big), (["list", "1"], neg), (["list", "2", "deep"], big), (["ok", "n"], 7)):
+        text = rp.encode(toks)
+        for rname, fn in (("resolve", lambda: JSONPointer(text).resolve(doc)), ("pointer.resolve", lambda: jsonpath.pointer.resolve(text, doc)), ("from_parts", lambda: JSONPointer.from_parts(list(toks)).resolve(doc)), ("exists", lambda: JSONPointer(text).exists(doc) or None)):
+            o = impl.call(fn)
+            ctx.evaluation()
+            if not o.ok or (rname != "exists" and o.value is not val) or (rname == "exists" and o.value is not True):
+                ctx.violation("existing-node-not-resolved:%s:huge-value" % rname, dict(tag, doc=case_doc, pointer=text), {"pointer": text, "route": rname, "outcome": o.desc() if not o.ok else "another value"})
+                return
+    for toks in (["big", "0"], ["big", "foo"], ["big", "-"], ["list", "1", "0"], ["big", "0", "1"], ["list", "2", "deep", ""], ["list", "1", "#"], ["big", "~"]):
+        text = rp.encode(toks)
+        for rname, fn, want in (("resolve", lambda: JSONPointer(text).resolve(doc), "raise"), ("resolve(default)", lambda: JSONPointer(text).resolve(doc, default="DEFAULT"), "DEFAULT"), ("exists", lambda: JSONPointer(text).exists(doc), False),
+                                ("pointer.resolve(default)", lambda: jsonpath.pointer.resolve(text, doc, default="DEFAULT"), "DEFAULT"), ("from_parts", lambda: JSONPointer.from_parts(list(toks)).resolve(doc), "raise"),
+                                ("resolve_parent", lambda: JSONPointer(text).resolve_parent(doc), "raise-or-undefined")):
+            o = impl.call(fn)
+            ctx.evaluation()
+            ctx.count("tokens_applied_to_numbers_too_long_to_print")
+            if o.ok:
+                if want == "raise" or (want not in ("raise", "raise-or-undefined") and o.value != want and o.value is not want):
+                    ctx.violation("unevaluable-pointer-yielded-a-value-through:%s" % rname, dict(tag, doc=case_doc, pointer=text), {"pointer": text, "route": rname, "value": repr(o.value)[:80]})
+                    return
+            elif want in ("DEFAULT", False) or not isinstance(o.exc, jsonpath.JSONPointerError):
+                ctx.violation("unevaluable-pointer-raised-foreign-through:%s:%s" % (rname, type(o.exc).__name__), dict(tag, doc=case_doc, pointer=text), {"pointer": text, "route": rname, "error": o.desc()[:300]})
+                return
+    ctx.cell("census", "token on a number too long to print -> unevaluable")
+
+
 def run_marker_siblings(ctx):
     """Objects holding a member N next to members named '~N' and '#N' (the spellings of the non-standard key markers):
     a pointer spelled from a node's names resolves to that very node whatever the names contain, so '/~0N' is the member
@@ -374,6 +411,7 @@ def run(spec, ctx):
         run_scale(ctx)
         run_surrogates(ctx)
         run_marker_siblings(ctx)
+        run_huge_values(ctx)
         return
     if spec.get("kind") == "flags":
         # pointer texts with %XX / \uXXXX sequences read under every decoding option, in several orders, in one process
@@ -443,6 +481,9 @@ def finalize(m, tier):
 
 
 def replay(case, ctx):
+    if case.get("huge_values"):
+        run_huge_values(ctx)
+        return
     if case.get("surrogate_names"):
         run_surrogates(ctx)
         return
